@@ -889,6 +889,9 @@ impl Monitor for RcMonitor {
                 }
             }
             site::DISPOSE_CHILD_CAS => {
+                if evdebug() {
+                    eprintln!("PRE seq={} t{} dispose_child_cas state_addr={:#x} cur={:#018x} exp={:#018x} new={:#018x} clock={}", sim().seq, tid, addr, read_state(addr), a, b, sim().clock.map(|f| f()).unwrap_or(0));
+                }
                 // the cascade is about to merge stamps into the child's count word; the CAS
                 // succeeds iff the word still equals what the loop iteration loaded
                 if read_state(addr) == a as u64 {
